@@ -279,7 +279,7 @@ def run(tier='quick', seed=0, nproc=16):
   jobs = [(n, s, False) for n in names for s in seqs] + [(n, (e,), True) for n in names for e in enames]
   res = common.pmap(check_case, gen.shuffled(jobs), nproc)
   res += common.pmap(unrelated_case, list(itertools.permutations(names, 2)), nproc)
-  res.append(sharing_scenarios())
+  res.append(common.guard(sharing_scenarios))
   return common.merge(
       res, 'layerb.prop_C10', keyfn=lambda v: v.get('fkey'),
       rule='pairs (old, new): new = k <= %d edits of a deep copy of old (value change, callable swap, '
